@@ -143,7 +143,7 @@ func init() {
 		h5 := []string{"raise(P1,7)", "gov(ent:signers=O;min=1)+failing-msg", "wreg(W1,chain-a)", "breg(W1,beacon-a)", "create(A->R1,600nund@10)"}
 		opt := map[Tier]Options{
 			Quick:    {Depth: 1, Budget: 100 * time.Second, ReplayEvery: 16, FreshJobs: true},
-			Thorough: {Depth: 2, Budget: 25 * time.Minute, ReplayEvery: 64, MaxStates: 400000},
+			Thorough: {Depth: 2, Budget: 4 * time.Minute, ReplayEvery: 64, MaxStates: 400000},
 		}
 		return &Check{ID: "C13",
 			Runs: []Run{{S: c13Scenario("entitlement-h1", h1), Opt: opt}, {S: c13Scenario("entitlement-h2", h2), Opt: opt}, {S: c13Scenario("entitlement-empty", h0), Opt: opt},
